@@ -1005,13 +1005,19 @@ def parse_tree_to_objgraph(
                     error_text = "Unresolvable cross references:"
 
                     for m in models:
+                        # Positions are relative to the text of the model
+                        # which holds the reference.
+                        m_parser = m._tx_reference_resolver.parser
                         for _, _, delayed in m._tx_reference_resolver.delayed_crossrefs:
-                            line, col = parser.pos_to_linecol(delayed.position)
+                            line, col = m_parser.pos_to_linecol(delayed.position)
+                            filename = m._tx_filename
                             error_text += (
                                 f' "{delayed.obj_name}" of class '
                                 f'"{delayed.cls.__name__}" at {(line, col)}'
                             )
-                    raise TextXSemanticError(error_text, line=line, col=col)
+                    raise TextXSemanticError(
+                        error_text, line=line, col=col, filename=filename
+                    )
 
                 for m in models:
                     assert not m._tx_reference_resolver.parser._inst_stack
